@@ -7,6 +7,67 @@
 use super::program::Asm;
 use crate::support;
 
+/// Blocks that take as long as a block can: bank 1 of a ROM-only image is 16383 x PUSH BC
+/// (4 machine cycles per byte, the most any instruction costs per byte) closed by RST 00 at
+/// 0x7FFF; the code at 0x0000 resets SP and enters the bank one byte later every time, so the
+/// blocks cost 65536, 65532, 65528 ... machine cycles (262144 clocks: more than three frames,
+/// exactly one revolution of the 16-bit divider, one more than a 16-bit cycle counter holds).
+/// The timer runs at its fastest rate and the display is on.
+pub fn long_duration_image() -> (Vec<u8>, String) {
+  let mut image = support::make_image(0x00, 0x00, 0x00);
+  for i in 0..image.len() {
+    image[i] = [0x76u8, 0x18, 0xfd, 0x00][i & 3];
+  }
+  for v in [0x40usize, 0x48, 0x50, 0x58, 0x60].iter() {
+    image[*v] = 0xd9; // RETI
+  }
+  for i in 0x4000..0x7fffusize {
+    image[i] = 0xc5; // PUSH BC
+  }
+  image[0x7fff] = 0xc7; // RST 00
+  image[0..5].copy_from_slice(&[0x31, 0xf0, 0xdf, 0x2c, 0xe9]); // LD SP,0xDFF0; INC L; JP (HL)
+  let mut a = Asm::new(0x0150);
+  a.b(&[0xf3, 0x01, 0x34, 0x12]); // DI; LD BC,0x1234
+  a.ld_a(0x05);
+  a.ldh_to(0x07); // TAC: enabled, 16 clocks
+  a.ld_a(0x91);
+  a.ldh_to(0x40); // display on
+  a.ld_hl(0x40ff);
+  a.jp(0x0000);
+  image[0x0150..0x0150 + a.bytes.len()].copy_from_slice(&a.bytes);
+  support::stamp_header(&mut image, 0x00, 0x00, 0x00);
+  (image, "long duration: blocks of 16383 x PUSH BC + RST 00, entered one byte later each time (65536, 65532 ... machine cycles)".to_string())
+}
+
+/// A loop that is one single block of exactly one frame period (17556 machine cycles:
+/// 8776 x LD A,(HL) + JP back), entered after `lead` NOPs: whenever the emulator looks at
+/// the LCD between two blocks it finds it at the same place of the frame.
+pub fn frame_synchronous_image(lead: usize) -> (Vec<u8>, String) {
+  let mut image = support::make_image(0x00, 0x00, 0x00);
+  for i in 0..image.len() {
+    image[i] = [0x76u8, 0x18, 0xfd, 0x00][i & 3];
+  }
+  for v in [0x40usize, 0x48, 0x50, 0x58, 0x60].iter() {
+    image[*v] = 0xd9; // RETI
+  }
+  for i in 0x4000..0x4000 + 8776usize {
+    image[i] = 0x7e; // LD A,(HL)
+  }
+  image[0x4000 + 8776..0x4000 + 8779].copy_from_slice(&[0xc3, 0x00, 0x40]); // JP 0x4000
+  let mut a = Asm::new(0x0150);
+  a.b(&[0xf3]); // DI
+  a.ld_a(0x91);
+  a.ldh_to(0x40); // display on
+  a.ld_hl(0xc000);
+  for _ in 0..lead {
+    a.b(&[0x00]);
+  }
+  a.jp(0x4000);
+  image[0x0150..0x0150 + a.bytes.len()].copy_from_slice(&a.bytes);
+  support::stamp_header(&mut image, 0x00, 0x00, 0x00);
+  (image, format!("frame synchronous: a one-block loop of exactly 17556 machine cycles, entered after {} NOPs", lead))
+}
+
 pub fn cache_pressure_image() -> (Vec<u8>, String) {
   let mut image = support::make_image(0x13, 0x06, 0x03);
   for i in 0..image.len() {
